@@ -1076,6 +1076,35 @@ Stats* gS = nullptr;
 int gCheckAlloc = 0;  // C20 mode
 const char* gProp = "C02";
 
+// machine-readable form of a program (replay files): src,vt,n,fin,rej;mode,arg,ret,sub,throws,exec;...
+std::string Encode(const Prog& p) {
+  char b[64];
+  std::snprintf(b, sizeof(b), "%d,%d,%d,%d,%d", p.src, p.vt, p.n, p.fin, p.rej);
+  std::string s = b;
+  for (int i = 0; i < p.n; ++i) {
+    const Step& t = p.st[i];
+    std::snprintf(b, sizeof(b), ";%d,%d,%d,%d,%d,%d", t.mode, t.arg, t.ret, t.sub, t.throws, t.exec);
+    s += b;
+  }
+  return s;
+}
+bool Decode(const std::string& code, Prog& p) {
+  const char* c = code.c_str();
+  int used = 0;
+  if (std::sscanf(c, "%d,%d,%d,%d,%d%n", &p.src, &p.vt, &p.n, &p.fin, &p.rej, &used) != 5 || p.n < 0 || p.n > 3) {
+    return false;
+  }
+  c += used;
+  for (int i = 0; i < p.n; ++i) {
+    Step& t = p.st[i];
+    if (std::sscanf(c, ";%d,%d,%d,%d,%d,%d%n", &t.mode, &t.arg, &t.ret, &t.sub, &t.throws, &t.exec, &used) != 6) {
+      return false;
+    }
+    c += used;
+  }
+  return true;
+}
+
 void AddFinding(const Prog& p, const char* oracle, const std::string& text) {
   ++gStats.mismatches;
   // one finding per (oracle, source kind lazy/eager, first step shape): a signature, not a schedule
@@ -1101,7 +1130,8 @@ void AddFinding(const Prog& p, const char* oracle, const std::string& text) {
     }
     return s;
   };
-  const std::string js = "{\"oracle\":\"" + esc(oracle) + "\",\"program\":\"" + esc(Describe(p)) + "\",\"text\":\"" + esc(text).substr(0, 600) + "\"}";
+  const std::string js = "{\"oracle\":\"" + esc(oracle) + "\",\"program\":\"" + esc(Describe(p)) + "\",\"code\":\"" + Encode(p) +
+                         "\",\"text\":\"" + esc(text).substr(0, 600) + "\"}";
   std::snprintf(gStats.findings[gStats.nfind++], sizeof(gStats.findings[0]), "%s", js.c_str());
 }
 
@@ -1278,7 +1308,41 @@ struct Options {
   std::string mode = "eager";  // eager | lazy | alloc | exec
   int shard = 0, nshards = 1;
   double deadline = 0;
+  std::string replay;
 };
+
+// lazy program against its eager twin (same descriptor list built with eager handles): a differential oracle
+void CheckLazyTwin(const Prog& p, const Trace& actual) {
+  Prog twin;
+  if (!EagerTwin(p, twin)) {
+    return;
+  }
+  Trace ta;
+  const int before = gStats.nfind;
+  if (!RunProgram(twin, &ta)) {
+    return;
+  }
+  ++gStats.twins;
+  // compare the steps (the source's own function, id -1, exists only where the source is a function)
+  auto strip = [](const Trace& t, Inv* out) {
+    int n = 0;
+    for (int i = 0; i < t.ninv; ++i) {
+      if (t.inv[i].step >= 0) {
+        out[n++] = t.inv[i];
+      }
+    }
+    return n;
+  };
+  Inv la[24], ea[24];
+  const int ln = strip(actual, la), en = strip(ta, ea);
+  bool same = ta.fst == actual.fst && ta.fcode == actual.fcode && ln == en;
+  for (int i = 0; same && i < ln; ++i) {
+    same = la[i].step == ea[i].step && la[i].st == ea[i].st && la[i].code == ea[i].code;
+  }
+  if (!same && gStats.nfind == before) {
+    AddFinding(p, "lazy:differs-from-eager-twin", "lazy " + TraceText(actual) + " ; eager twin " + TraceText(ta));
+  }
+}
 
 bool gCapped = false;
 
@@ -1324,33 +1388,7 @@ void Enumerate(const Options& o) {
                 continue;
               }
               if (lazy) {
-                Prog twin;
-                if (EagerTwin(p, twin)) {
-                  Trace ta;
-                  const int before = gStats.nfind;
-                  if (RunProgram(twin, &ta)) {
-                    ++gStats.twins;
-                    // compare the steps (the source's own function, id -1, exists only where the source is a function)
-                    auto strip = [](const Trace& t, Inv* out) {
-                      int n = 0;
-                      for (int i = 0; i < t.ninv; ++i) {
-                        if (t.inv[i].step >= 0) {
-                          out[n++] = t.inv[i];
-                        }
-                      }
-                      return n;
-                    };
-                    Inv la[24], ea[24];
-                    const int ln = strip(actual, la), en = strip(ta, ea);
-                    bool same = ta.fst == actual.fst && ta.fcode == actual.fcode && ln == en;
-                    for (int i = 0; same && i < ln; ++i) {
-                      same = la[i].step == ea[i].step && la[i].st == ea[i].st && la[i].code == ea[i].code;
-                    }
-                    if (!same && gStats.nfind == before) {
-                      AddFinding(p, "lazy:differs-from-eager-twin", "lazy " + TraceText(actual) + " ; eager twin " + TraceText(ta));
-                    }
-                  }
-                }
+                CheckLazyTwin(p, actual);
               }
               if (exec || o.tier > 0) {
                 const int e1_submits = actual.submits[1];
@@ -1378,6 +1416,67 @@ void Enumerate(const Options& o) {
   }
 }
 
+// Runs the one program of a replay file (written by run.py from a finding) without any enumeration and prints
+// what the library did, what the reference says, and every oracle that fails.  Exit 1 iff something fails.
+int ReplayFile(const std::string& path) {
+  FILE* f = std::fopen(path.c_str(), "r");
+  if (f == nullptr) {
+    std::fprintf(stderr, "cannot open %s\n", path.c_str());
+    return 2;
+  }
+  std::string text;
+  char buf[4096];
+  std::size_t n;
+  while ((n = std::fread(buf, 1, sizeof(buf), f)) > 0) {
+    text.append(buf, n);
+  }
+  std::fclose(f);
+  auto field = [&](const char* key) {
+    const std::string k = std::string{"\""} + key + "\"";
+    auto p = text.find(k);
+    if (p == std::string::npos) {
+      return std::string{};
+    }
+    p = text.find('"', text.find(':', p));
+    const auto e = text.find('"', p + 1);
+    return text.substr(p + 1, e - p - 1);
+  };
+  Prog p;
+  if (!Decode(field("code"), p)) {
+    std::fprintf(stderr, "no program code in %s\n", path.c_str());
+    return 2;
+  }
+  const std::string cell = field("cell");
+  static std::string prop = field("property");
+  if (!prop.empty()) {
+    gProp = prop.c_str();
+  }
+  gCheckAlloc = cell.find("mode=alloc") != std::string::npos ? 1 : 0;
+  gS = static_cast<Stats*>(mmap(nullptr, sizeof(Stats), PROT_READ | PROT_WRITE, MAP_SHARED | MAP_ANONYMOUS, -1, 0));
+  std::memset(static_cast<void*>(gS), 0, sizeof(Stats));
+  std::printf("replay harness=pipeline cell=%s\nprogram: %s\n", cell.c_str(), Describe(p).c_str());
+  Trace want;
+  if (!Reference(p, want)) {
+    std::printf("the reference rejects this program (not a valid pipeline)\n");
+    return 2;
+  }
+  std::printf("reference: %s\n", TraceText(want).c_str());
+  std::fflush(stdout);
+  Trace got;
+  const bool valid = RunProgram(p, &got);
+  if (valid) {
+    std::printf("library:   %s\n", TraceText(got).c_str());
+    if (p.src >= kNEager) {
+      CheckLazyTwin(p, got);
+    }
+  }
+  for (int i = 0; i < gStats.nfind; ++i) {
+    std::printf("FAILS %s\n", gStats.findings[i]);
+  }
+  std::printf(gStats.nfind != 0 || gStats.mismatches != 0 ? "RESULT violation\n" : "RESULT clean\n");
+  return gStats.nfind != 0 || gStats.mismatches != 0 ? 1 : 0;
+}
+
 }  // namespace
 
 int main(int argc, char** argv) {
@@ -1399,11 +1498,16 @@ int main(int argc, char** argv) {
       o.nshards = std::atoi(next().c_str());
     } else if (a == "--deadline") {
       o.deadline = std::atof(next().c_str());
+    } else if (a == "--replay") {
+      o.replay = next();
     } else if (a == "--prop") {
       static std::string prop;
       prop = next();
       gProp = prop.c_str();
     }
+  }
+  if (!o.replay.empty()) {
+    return ReplayFile(o.replay);
   }
   gCheckAlloc = o.mode == "alloc" ? 1 : 0;
   gS = static_cast<Stats*>(mmap(nullptr, sizeof(Stats), PROT_READ | PROT_WRITE, MAP_SHARED | MAP_ANONYMOUS, -1, 0));
